@@ -132,6 +132,19 @@ CHECKS = {
               "modes and reproduces any state on its own grid. Replay: map_between_resolutions and FourierInterpolator on every state with random "
               "amplitude/phase/L/channels, query points inside and outside the domain, random dense states (both indexings, float-hazard grid sizes)."),
         note="TLC, numpy cos, fft conventions (C04); tolerance 1e-10 relative"),
+    "C16": dict(
+        category="model_checking", design_ref="4/C16", engine="metrics",
+        technique="TLC pipeline machine Diff/Band/Aggregate over exact sparse spectra (MC_Metrics) with Parseval-through-layout, resolution, band-additivity, axiom, Cauchy-Schwarz and H1 invariants + replay of every terminal state into every function of exponax.metrics on two grids",
+        text=("MC_Metrics evaluates every public metric (21 functions, registry MetricTable inside the specification) exactly on pairs of sparse two-sided "
+              "spectra with rational amplitudes: per channel and derivative direction the exact atoms Sum |c_k|^2 k_j^2 (inner exponent 2) and the formal "
+              "sums Sum w SQRT[q] (inner exponent 1). TLC checks Parseval through the rfft layout with the reconstruction weights on three grids "
+              "(resolution independence), spatial = Fourier, band additivity over shells and over low/mid/high splits, zero-iff-identical, symmetry, "
+              "homogeneity, the symmetric bound, Cauchy-Schwarz with its equality case, and that the derivative atoms are the atoms of the spectral "
+              "gradient. Every terminal state is synthesised on its grid N and a second grid and run through all metrics (plain, band-limited, "
+              "derivative_order=1, H1) for random L; the expected value is assembled from the atoms (powers of L, 2pi/L, sqrt). Random dense "
+              "multi-channel states with Nyquist content are run through the relations proved for the model: Parseval, explicit Riemann sums, band "
+              "partitions, channel additivity, homogeneity, L^D scaling, H1 = plain + gradient, correlation range/proportional cases, mean_metric."),
+        note="TLC, dump parser, numpy synthesis, float64 sqrt/pow for the outer exponent and L factors; closed forms for spatial L1 metrics only on sign-definite fields (elsewhere axioms and scaling only); tolerance 2e-10"),
     "C17": dict(
         category="model_checking", design_ref="4/C17", engine="layout",
         technique="TLC-exact radial spectrum of every real basis function (MC_Spectrum) with one-bin/amplitude/Parseval/average invariants + replay into get_spectrum",
@@ -205,6 +218,8 @@ def main():
              "kind_free_text": "TLC exact sparse-spectrum machine + spec->code replay"},
             {"name": "forcing", "path": "spec/MC_Forcing.tla harness/checks/c12.py", "serves_properties": ["C12"],
              "kind_free_text": "TLC laminar-solution machine + spec->code replay"},
+            {"name": "metrics", "path": "spec/MC_Metrics.tla harness/checks/c16.py", "serves_properties": ["C16"],
+             "kind_free_text": "TLC exact metric pipeline + spec->code replay"},
             {"name": "rollout", "path": "spec/MC_Rollout.tla spec/Trace_Rollout.tla harness/checks/c14.py", "serves_properties": ["C14"],
              "kind_free_text": "TLC state machine + replay + trace validation"},
         ],
